@@ -892,23 +892,6 @@ func genC07Twin(seed uint64, tier string) *world.Scenario {
 		}
 		sc.Horizon += world.Dur(time.Duration(sc.Params["preTicks"]) * sc.Tick.D())
 		sc.Variant += "|history"
-	} else if hr.Bool(0.5) {
-		// both worlds hop between the same two or three loads every cycle or two - the hotter world a little
-		// hotter at every moment - while the PWM attribute cannot be read for a few cycles now and then
-		n := hr.Range(2, 3)
-		sc.Params["hopN"] = float64(n)
-		for i := 0; i < n; i++ {
-			sc.Params[fmt.Sprintf("hopV%d", i)] = float64(hr.Range(0, 250))
-		}
-		sc.Params["hopD"] = float64(kernel.Pick(hr, 1, 1, 2, 3, 5))
-		sc.Params["hopEvery"] = float64(hr.Range(1, 2))
-		sc.Params["hopSeed"] = float64(hr.Intn(1 << 30))
-		for j, k := 0, hr.Range(1, 4); j < k; j++ {
-			sc.Faults = append(sc.Faults, world.FaultSpec{Op: "read", Target: "fan:" + f.ID + ":pwm", Nth: hr.Range(2, 60), Count: hr.Range(1, 8),
-				Kind: kernel.Pick(hr, "ebusy", "eagain", "eio", "missing"), OnlyFlags: "upd"})
-		}
-		sc.Horizon += sec(10)
-		sc.Variant += "|hopping"
 	}
 	return sc
 }
@@ -931,20 +914,6 @@ func runC07Twin(t *testing.T, sc *world.Scenario) *check.Result {
 		if pt, ok := sc.Params["preTicks"]; ok {
 			at := 3500*time.Millisecond + time.Duration(pt)*sc.Tick.D()
 			s2.Sensors[0].Prog = world.TempProg{Kind: "steps", Base: tempForCurve(int(sc.Params["preC"])), Steps: []world.TempStep{{T: world.Dur(at), V: temp}}}
-		}
-		if n := int(sc.Params["hopN"]); n > 0 {
-			d := 0
-			if temp == int(sc.Params["t2"]) && sc.Params["t2"] != sc.Params["t1"] {
-				d = int(sc.Params["hopD"])
-			}
-			val := func(i int) int { return tempForCurve(min(255, int(sc.Params[fmt.Sprintf("hopV%d", i%n)])+d)) }
-			prog := world.TempProg{Kind: "steps", Base: val(0)}
-			k := 0
-			for t := 3 * time.Second; t < s2.Horizon.D(); t += time.Duration(sc.Params["hopEvery"]) * sc.Tick.D() {
-				k++
-				prog.Steps = append(prog.Steps, world.TempStep{T: world.Dur(t), V: val(k)})
-			}
-			s2.Sensors[0].Prog = prog
 		}
 		var cycles []*Cycle
 		res := runL1(t, s2, func(st *stage.Stage, res *check.Result) []Oracle {
